@@ -1,5 +1,6 @@
 import PeptVerif.Lemmas.ModTablesBridge
 import PeptVerif.Model.MassEnv
+import PeptVerif.Props.C02
 /-!
 C03 — mass calculator ≡ composition calculator + residual delta.  Property theorems only.
 -/
@@ -82,8 +83,7 @@ vocabularies by `unimod_mono_consistent`, `unimod_avg_chnops_consistent`, `psimo
 `m(H)` is the average hydrogen mass and ε = −1.157·10⁻⁴.
 
 Partial: this theorem is the case without global static rules (`a.static = none`); `mass_eq_compMass_static` is the
-case with rules.  Explicit adduct lists are not covered (adduct counts ≠ 1 are the known finding
-KF-C03-adduct-electron-count; see `C02.mass_eq_spec_adducts` for the mass side).  With isotope labels in force `mass`
+case with rules, `mass_eq_compMass_adducts` the case with an explicit adduct list.  With isotope labels in force `mass`
 IS the composition path (`mass_label_path`). -/
 theorem mass_eq_compMass_partial (env : Env) (a : Annotation) (o : Opts)
     (hstatic : a.static = none) (hl : o.isotopeMods = none) (hl' : a.isotope = none)
@@ -135,6 +135,54 @@ theorem mass_eq_compMass_static_concrete (res : ModVal → Res) (a : Annotation)
 example : Static.parseStaticMods (some [⟨.str "[+10][Acetyl]^2@T,N-Term".toList, 1⟩])
     = .ok [("T".toList, [⟨.int 10, 1⟩, ⟨.str "Acetyl".toList, 2⟩]),
            ("N-Term".toList, [⟨.int 10, 1⟩, ⟨.str "Acetyl".toList, 2⟩])] := by decide +kernel
+
+/-- **the identity with an explicit adduct list** — from the `charge_adducts` argument or written in the annotation
+(`PEPTIDE/2[+Na+,+K+]`), for every ion type (the list replaces the whole charge carrier in both calculators), any
+charge / isotope / loss, both modes: `mass = chem_mass(comp) + δ + loss + adductGap + gapSum` with
+`adductGap` = Σ q·mₑ·(count − 1) over the stated non-electron ions (and `PROTON_MASS − (m(H) − mₑ)` for the literal `+H+`).
+The known finding KF-C03-adduct-electron-count is exactly a non-zero `adductGap`; it vanishes when every ion is stated
+once (`adductGap_counts_one`).  (No global static rules in this statement.) -/
+theorem mass_eq_compMass_adducts (env : Env) (a : Annotation) (o : Opts) (s : List Char)
+    (hsrc : AdductSource a o s)
+    (hstatic : a.static = none) (hl : o.isotopeMods = none) (hl' : a.isotope = none) (hprec : o.precision = none)
+    (hres : KnownResidues a.seq) (hcons : AllConsistent env o.mono (writtenMods a))
+    (hadj : (lookup o.ion neutralAdj).isSome = true)
+    (hions : (splitComma (s.map Char.toNat)).all (Spec.adductIonOk o.mono) = true) :
+    ∃ c d, compMass env a o.ion o.charge o.isotope o.adducts none o.useIsotopeOnMods = .ok (c, d) ∧
+      mass env a o = .ok (chemMassL (μ o.mono) c + d + o.loss + adductGap o.mono (s.map Char.toNat)
+        + gapSum env o.mono (Spec.placedMods a o.ion)) :=
+  mass_eq_compMass_adducts_of_tables Pept.C02.avg_keys_ok env a o s hsrc hstatic hl hl' hprec hres hcons hadj hions
+
+/-- every ion stated once (electrons as `e-`) and not the literal `+H+`: the two calculators agree exactly -/
+theorem adductGap_counts_one (mono : Bool) (s : List Nat) (hs : s ≠ [43, 72, 43])
+    (h : ∀ x ∈ splitComma s, ∀ cnt sym q, parseIonElements x = .ok (cnt, sym, q) →
+      (sym = kE ∧ q = -1) ∨ (sym ≠ kE ∧ cnt = 1)) :
+    adductGap mono s = 0 := by
+  unfold adductGap
+  simp only [hs, if_false]
+  have : ∀ l : List (List Nat), (∀ x ∈ l, ionGap x = 0) → Spec.sumR (l.map ionGap) = 0 := by
+    intro l
+    induction l with
+    | nil => intro _; rfl
+    | cons x l ih =>
+      intro hl
+      rw [List.map_cons, Spec.sumR_cons, hl x List.mem_cons_self, ih (fun y hy => hl y (List.mem_cons_of_mem _ hy))]
+      ring
+  apply this
+  intro x hx
+  unfold ionGap
+  cases hp : parseIonElements x with
+  | error e => rfl
+  | ok r =>
+    obtain ⟨cnt, sym, q⟩ := r
+    rcases h x hx cnt sym q hp with ⟨he, hq⟩ | ⟨he, hc⟩
+    · simp [he, hq]
+    · simp [he, hc]
+
+-- non-vacuity: PEPTIDE/2[+Na+,+2K+] (annotation) and the argument form
+example : AdductSource { seq := "PEPTIDE".toList, charge := some 2, adducts := some [⟨.str "+Na+,+2K+".toList, 1⟩] } {}
+    "+Na+,+2K+".toList := Or.inr ⟨rfl, 1, [], rfl⟩
+example : (splitComma ("+Na+,+2K+".toList.map Char.toNat)).all (Spec.adductIonOk false) = true := by decide +kernel
 
 /-- with exactly self-consistent rows (tabulated mass = mass of the composition in the mode; every numeric, formula and
 glycan modification is such a row) the gap term vanishes and the identity is `mass = chem_mass(comp) + δ + loss + k·ε` -/
